@@ -78,6 +78,10 @@ func clientMain(args []string) {
 	serverPort, _ := strconv.Atoi(args[1])
 	stun := args[2]
 	mux := args[3] == "1"
+	extraProxies := 0 // that many more plain tcp proxies ("bulk-<i>")
+	if len(args) > 4 {
+		extraProxies, _ = strconv.Atoi(args[4])
+	}
 	// the wrapper's timing constants: a proxy whose registration was refused or not answered retries soon
 	proxy.VerifSetTiming(200*time.Millisecond, 1500*time.Millisecond, 1500*time.Millisecond)
 
@@ -183,6 +187,10 @@ func clientMain(args []string) {
 		pcs = append(pcs, h)
 	}
 
+	for i := 0; i < extraProxies; i++ {
+		tcp(fmt.Sprintf("bulk-%d", i), nil)
+	}
+
 	var vcs []v1.VisitorConfigurer
 	ports := []int{}
 	vbase := func(vb *v1.VisitorBaseConfig, name, typ, server string, port int) {
@@ -234,8 +242,14 @@ func clientMain(args []string) {
 		fail(err)
 	}
 	ctx, cancel := context.WithCancel(context.Background())
-	go func() { _ = svc.Run(ctx) }()
+	runDone := make(chan struct{})
+	go func() { _ = svc.Run(ctx); close(runDone) }()
 	fmt.Printf("READY %d %d %d %d %d %d\n", echo.Port(), uport, ports[0], ports[1], ports[2], ports[3])
 	_, _ = io.Copy(io.Discard, os.Stdin)
+	// orderly shutdown (Service.stop runs, possibly in the middle of a re-login), not just exit
 	cancel()
+	select {
+	case <-runDone:
+	case <-time.After(2 * time.Second):
+	}
 }
